@@ -104,6 +104,7 @@ LOCKS = ["absent", "valid", "corrupt", "empty"]
 CACHE = [None, True, False]
 STRUCT = [False, True]
 ENDING = ["normal", "sigterm", "sigint"]
+TMPDIRS = ["exists", "missing", "missing_inside_project"]     # the environment is part of the configuration
 
 
 def make_tree(box, tree, rnd):
@@ -134,7 +135,8 @@ def make_tree(box, tree, rnd):
 
 def work(job):
     built, seed, i, point = job
-    tree, lock, cache, structured, ending = point
+    tree, lock, cache, structured, ending = point[:5]
+    tmpmode = point[5] if len(point) > 5 else "exists"
     rnd = core.rng_for("c04", seed, i)
     res = {"evaluations": 1, "nontrivial": [], "violations": [], "samples": [], "inconclusive": {}, "counters": {}}
     with core.Box(tag="c04") as box:
@@ -159,7 +161,12 @@ def work(job):
             # stop request raised synchronously at a seeded operation boundary
             k = rnd.randrange(2, 12)
             rules = "n=%d,act=sig:%d" % (k, signal.SIGTERM if ending == "sigterm" else signal.SIGINT)
-        r = core.run_breadlog(built, box, cfg, check=True, cwd=cwd, strace=True, rules=rules, timeout=120)
+        tmpdir = None
+        if tmpmode == "missing":
+            tmpdir = os.path.join(box.root, "no", "such", "tmpdir")
+        elif tmpmode == "missing_inside_project":
+            tmpdir = os.path.join(box.proj, "target", "tmp")
+        r = core.run_breadlog(built, box, cfg, check=True, cwd=cwd, strace=True, rules=rules, timeout=120, tmpdir=tmpdir)
         after = core.snapshot(box.root)
         v, nsys, seen = audit(r.strace, box.root) if r.strace and os.path.exists(r.strace) else ([("no-strace-log", "")], 0, {})
         excerpt = []
@@ -179,7 +186,7 @@ def work(job):
         if k in seen:
             res["counters"]["sys_" + k] = seen[k]
     res["nontrivial"].append("|".join(str(x) for x in point))
-    sigbase = "%s|lock=%s|cache=%s|%s|%s" % (tree, lock, cache, "structured" if structured else "unstructured", ending)
+    sigbase = "%s|lock=%s|cache=%s|%s|%s|tmpdir=%s" % (tree, lock, cache, "structured" if structured else "unstructured", ending, tmpmode)
     for name, detail in v:
         res["violations"].append({"signature": "C04.mutating-syscall:%s|%s" % (name, sigbase), "detail": {"syscall": name, "args": detail},
                                   "case": {"point": list(point), "seed": seed, "i": i}})
@@ -218,7 +225,7 @@ def main(tier):
     core.build_shim()
     ck.built = built
     rnd = core.rng_for("c04main", ck.seed, tier)
-    product = list(itertools.product(TREES, LOCKS, CACHE, STRUCT, ENDING))
+    product = list(itertools.product(TREES, LOCKS, CACHE, STRUCT, ENDING, TMPDIRS))
     # the whole product in both tiers (a point costs ~20 ms under strace); thorough repeats it with three further
     # seeds (different signal positions and tree contents)
     points = list(product)
@@ -235,7 +242,7 @@ def main(tier):
     ck.extra["points_run"] = len(points)
     ck.rule = ("configuration product tree{none missing, some missing, unreadable/special files, invalid UTF-8, empty / missing source "
                "dir, bad config, 12-file tree} x lock{absent,valid,corrupt,empty} x use_cache{omitted,true,false} x structured x "
-               "ending{normal, SIGTERM, SIGINT at a seeded operation} (all %d points in both tiers, exhaustive; thorough x4 with fresh "
+               "ending{normal, SIGTERM, SIGINT at a seeded operation} x TMPDIR{exists, missing, missing inside the project} (all %d points in both tiers, exhaustive; thorough x4 with fresh "
                "signal positions) + corpora; every --check process runs under strace -f -y; every successful kernel call "
                "that can mutate the filesystem is a violation, as is any difference (content, mode, size, mtime, inode, path set) "
                "between the before/after snapshots of project, TMPDIR, cwd and an outside directory; distinct_nontrivial = distinct points"
